@@ -128,6 +128,18 @@ Theorem C07_checker_sound : forall cfgs v,
   hasse_spec cfgs v (fun i j => mget (mat_of (ref_sub (Some "R"%string) true) cfgs) i j).
 Proof. exact C07_okb_sound. Qed.
 
+(* ... for every wildcard / ignore_case setting (hierarchies built under a caller-chosen mapper) *)
+Theorem C07_checker_sound_any_mapper : forall w ic cfgs v,
+  C07_gen_okb w ic true cfgs (Good v) = true ->
+  some_mutualb w ic cfgs = false /\
+  hasse_spec cfgs v (fun i j => mget (mat_of (ref_sub w ic) cfgs) i j).
+Proof. exact C07_gen_okb_sound. Qed.
+
+(* a refusal (AssertionError) is accepted only when two patterns of the list embed into each other *)
+Theorem C07_checker_refusal : forall w ic full cfgs e,
+  C07_gen_okb w ic full cfgs (Bad e) = true -> some_mutualb w ic cfgs = true.
+Proof. exact C07_gen_okb_refusal. Qed.
+
 (* the reference decision "P embeds somewhere into G" used by the checker and by [default_ref] is
    exact with respect to is_embedding (whose equivalence with Embedding is the matcher team's
    C04_is_embedding_sound / EmbeddingFacts.is_embedding_complete) *)
@@ -363,3 +375,5 @@ Print Assumptions C07_is_subgroup_assert_iff.
 Print Assumptions C07_is_subgroup_self.
 Print Assumptions C07_concrete_total.
 Print Assumptions C07_concrete_total_hyps.
+Print Assumptions C07_checker_sound_any_mapper.
+Print Assumptions C07_checker_refusal.
